@@ -268,9 +268,15 @@ def gen_site(rng, boom_ok=False):
         ]
         # a lambda called on the spot with a captured value, whose parameter name is bound
         # again further in (the library resolves such calls while it captures)
+        def unused(text_fn):
+            def form():
+                flags["arg_unused"] = True  # the body never reads the parameter
+                return text_fn()
+            return form
+
         forms += [
-            lambda: f"(lambda {k}: {e}.jets.Select(lambda {k}: {k}.pt))({v()})",
-            lambda: f"(lambda {k}: [{k}.pt + {v()} for {k} in {e}.jets])({v()})",
+            unused(lambda: f"(lambda {k}: {e}.jets.Select(lambda {k}: {k}.pt))({v()})"),
+            unused(lambda: f"(lambda {k}: [{k}.pt + {v()} for {k} in {e}.jets])({v()})"),
             lambda: f"(lambda {k}: {k})({v()}) + {e}.a",
             lambda: f"(lambda {k}: {e}.jets.Select(lambda {j}: {j}.pt + {k}))({v()})",
         ]
@@ -1251,7 +1257,7 @@ class Forest:
             self.last_op = "failed-derive"
             return
         refs = None
-        if "C04" in self.oracles and not blocked:
+        if "C04" in self.oracles and (not blocked or site.get("arg_unused")):
             rf = ref_fn()
             le.reset_budget()
             refs = [le.outcome(rf, s) for s in SAMPLES]
@@ -1276,6 +1282,12 @@ class Forest:
                                                  "got": type(ex).__name__})
                 self.ev("site_none_refused", k)
                 return
+        if blocked and ex is None and site.get("arg_unused"):
+            # the non-transportable value is only handed to a parameter that the body never
+            # reads: nothing of it has to reach the query, so the call need not refuse it -
+            # but then the query must be right (checked below like any other)
+            self.stat("site_blocked_value_dropped")
+            blocked = []
         if blocked:
             self.stat("site_blocked_calls")
             if "C04" in self.oracles:
